@@ -190,8 +190,49 @@ def coq_dep_cone(target_v):
     return sorted(seen)
 
 
+GEN_OF = {"ApiHandles.v": "api_handles", "BuildOrder.v": "build_order", "CopySites.v": "copy_sites", "EngFacts.v": "eng_facts",
+          "KeyTable.v": "key_table", "Keymaps.v": "keymaps", "LockScopes.v": "lock_scopes", "MenuConsts.v": "menu_consts",
+          "SessionApi.v": "session_api", "Layout.v": "table_layout", "Inits.v": "udb_inits"}
+
+
+def ensure_generated():
+    """A generated file that is missing (a fresh checkout in which bin/setup has not run) is produced by its translator from
+    the current source; files that exist are left to the checks that own them (each check re-runs its own translators)."""
+    import importlib
+    missing = [f for f in GEN_OF if not os.path.exists(os.path.join(COQ, "Gen", f))]
+    if not missing:
+        return
+    gdir = os.path.join(VERIF, "gen")
+    if gdir not in sys.path:
+        sys.path.insert(0, gdir)
+    os.makedirs(os.path.join(COQ, "Gen"), exist_ok=True)
+    for f in missing:
+        importlib.import_module(GEN_OF[f]).generate()
+
+
+def regenerate_cone(cone):
+    """Re-run the translators of the Gen/*.v files in `cone`; True when a generated file changed."""
+    import hashlib
+    import importlib
+    gdir = os.path.join(VERIF, "gen")
+    if gdir not in sys.path:
+        sys.path.insert(0, gdir)
+    changed = False
+    for f in cone:
+        base = os.path.basename(f)
+        if not f.startswith("Gen/") or base not in GEN_OF:
+            continue
+        path = os.path.join(COQ, "Gen", base)
+        before = hashlib.sha1(open(path, "rb").read()).hexdigest() if os.path.exists(path) else None
+        importlib.import_module(GEN_OF[base]).generate()
+        after = hashlib.sha1(open(path, "rb").read()).hexdigest() if os.path.exists(path) else None
+        changed = changed or before != after
+    return changed
+
+
 def coq_prepare():
     """(Re)generate _CoqProject and Makefile when the file set changed."""
+    ensure_generated()
     srcs = coq_sources()
     proj = "-Q . RimeV\n-arg -w -arg -notation-overridden,-deprecated-hint-without-locality,-deprecated-instance-without-locality\n" + "\n".join(srcs) + "\n"
     changed = write_if_changed(os.path.join(COQ, "_CoqProject"), proj)
@@ -469,6 +510,10 @@ def proof_stage(ctx, extra_targets=(), gen=None):
         gen()
     targets = ["Properties_%s.vo" % pid] + list(extra_targets)
     ok, log = coq_make(targets)
+    # every generated file in this property's dependency cone is re-translated from the CURRENT source on every run (the check
+    # itself re-runs the translators it reports on; this covers the rest of the cone, e.g. the key maps under Svc/EngInstance)
+    if regenerate_cone(coq_dep_cone("Properties_%s.v" % pid) or []):
+        ok, log = coq_make(targets)
     # forbidden constructs are judged inside this property's dependency cone (other properties' files are
     # judged by their own checks; bin/validate scans the whole development)
     cone = coq_dep_cone("Properties_%s.v" % pid)
